@@ -1,7 +1,7 @@
 (* Proofs about the metadata state machine: replay (from nothing, or from a snapshot) followed by
    finishedRecovery rebuilds the state the live servers have. *)
 From LB Require Import Base.Prelude Meta.Groups Meta.GroupsProofs Meta.Fsm.
-From Coq Require Import ZifyBool.
+From Coq Require Import ZifyBool Permutation.
 Open Scope Z_scope.
 
 (* ------------------------------------------------------------------ association lists *)
@@ -767,50 +767,77 @@ Proof.
 Qed.
 
 (* ------------------------------------------------------------------ states that agree on everything but the assignments *)
-Definition gp (g : group) : list member * N := (g_members g, g_epoch g).
-Definition geq (a b : gid * grp) : Prop := fst a = fst b /\ gr_coord (snd a) = gr_coord (snd b) /\ gp (gr_g (snd a)) = gp (gr_g (snd b)).
+(* members as a set: a snapshot lists them in Go's map order *)
+Definition gpe (g1 g2 : group) : Prop := Permutation (g_members g1) (g_members g2) /\ g_epoch g1 = g_epoch g2.
+Definition geq (a b : gid * grp) : Prop := fst a = fst b /\ gr_coord (snd a) = gr_coord (snd b) /\ gpe (gr_g (snd a)) (gr_g (snd b)).
 Definition core_eqv (c1 c2 : core) : Prop := c_streams c1 = c_streams c2 /\ Forall2 geq (c_groups c1) (c_groups c2).
 
-Lemma gp_eq g1 g2 : gp g1 = gp g2 -> g_members g1 = g_members g2 /\ g_epoch g1 = g_epoch g2.
-Proof. unfold gp. intros [= H1 H2]. split; assumption. Qed.
+Lemma gpe_refl g : gpe g g.
+Proof. split; [apply Permutation_refl|reflexivity]. Qed.
 
-Lemma add_member_cong np1 np2 g1 g2 c ss e : gp g1 = gp g2 ->
+Lemma gpe_sym g1 g2 : gpe g1 g2 -> gpe g2 g1.
+Proof. intros [H1 H2]. split; [apply Permutation_sym; exact H1|symmetry; exact H2]. Qed.
+
+Lemma existsb_perm {A} (f : A -> bool) l1 l2 : Permutation l1 l2 -> existsb f l1 = existsb f l2.
+Proof.
+  induction 1 as [|x l l' _ IH|x y l|l l' l'' _ IH1 _ IH2]; cbn [existsb]; [reflexivity|rewrite IH; reflexivity| |congruence].
+  destruct (f x), (f y); reflexivity.
+Qed.
+
+Lemma filter_perm {A} (f : A -> bool) l1 l2 : Permutation l1 l2 -> Permutation (filter f l1) (filter f l2).
+Proof.
+  induction 1 as [|x l l' _ IH|x y l|l l' l'' _ IH1 _ IH2]; cbn [filter]; [constructor| | |eapply Permutation_trans; eassumption].
+  - destruct (f x); [constructor; exact IH|exact IH].
+  - destruct (f x), (f y); try apply Permutation_refl. constructor.
+Qed.
+
+Lemma find_none_perm {A} (f : A -> bool) l1 l2 : Permutation l1 l2 -> find f l1 = None -> find f l2 = None.
+Proof.
+  intros Hp H. destruct (find f l2) as [x|] eqn:E; [|reflexivity]. apply find_some in E. destruct E as [Hin Hf].
+  apply (Permutation_in _ (Permutation_sym Hp)) in Hin. pose proof (find_none f l1 H x Hin). congruence.
+Qed.
+
+Lemma add_member_cong np1 np2 g1 g2 c ss e : gpe g1 g2 ->
   match add_member np1 g1 c ss e, add_member np2 g2 c ss e with
-  | GOk a, GOk b => gp a = gp b
+  | GOk a, GOk b => gpe a b
   | GRefused, GRefused => True
   | _, _ => False
   end.
 Proof.
-  intros H. apply gp_eq in H. destruct H as [Hm He]. unfold add_member. rewrite He. destruct (e <? g_epoch g2)%N; [exact I|].
-  unfold gp. cbn [g_members g_epoch]. rewrite Hm. reflexivity.
+  intros [Hm He]. unfold add_member. rewrite He. destruct (e <? g_epoch g2)%N; [exact I|].
+  split; cbn [g_members g_epoch]; [apply Permutation_app_tail; exact Hm|reflexivity].
 Qed.
 
-Lemma remove_member_cong np1 np2 g1 g2 c e : gp g1 = gp g2 ->
+Lemma remove_member_cong np1 np2 g1 g2 c e : gpe g1 g2 ->
   match remove_member np1 g1 c e, remove_member np2 g2 c e with
-  | GOk a, GOk b => gp a = gp b
+  | GOk a, GOk b => gpe a b
   | GRefused, GRefused => True
   | GNotMember, GNotMember => True
   | _, _ => False
   end.
 Proof.
-  intros H. apply gp_eq in H. destruct H as [Hm He]. unfold remove_member. rewrite He, Hm. destruct (e <? g_epoch g2)%N; [exact I|].
-  destruct (find _ (g_members g2)); [|exact I]. unfold gp. cbn [g_members g_epoch]. reflexivity.
+  intros [Hm He]. unfold remove_member. rewrite He. destruct (e <? g_epoch g2)%N; [exact I|].
+  destruct (find (fun m => N.eqb (m_id m) c) (g_members g1)) eqn:E1, (find (fun m => N.eqb (m_id m) c) (g_members g2)) eqn:E2.
+  - split; cbn [g_members g_epoch]; [apply filter_perm; exact Hm|reflexivity].
+  - rewrite (find_none_perm _ _ _ (Permutation_sym Hm) E2) in E1. discriminate.
+  - rewrite (find_none_perm _ _ _ Hm E1) in E2. discriminate.
+  - exact I.
 Qed.
 
-Lemma stream_deleted_cong np1 np2 g1 g2 s e : gp g1 = gp g2 ->
+Lemma stream_deleted_cong np1 np2 g1 g2 s e : gpe g1 g2 ->
   match stream_deleted np1 g1 s e, stream_deleted np2 g2 s e with
-  | GOk a, GOk b => gp a = gp b
+  | GOk a, GOk b => gpe a b
   | GRefused, GRefused => True
   | _, _ => False
   end.
 Proof.
-  intros H. pose proof H as H0. apply gp_eq in H. destruct H as [Hm He]. unfold stream_deleted. rewrite He, Hm. destruct (e <? g_epoch g2)%N; [exact I|].
-  destruct (negb (existsb (subscribes s) (g_members g2))); [exact H0|]. unfold gp. cbn [g_members g_epoch]. reflexivity.
+  intros H. pose proof H as [Hm He]. unfold stream_deleted. rewrite He, (existsb_perm _ _ _ Hm). destruct (e <? g_epoch g2)%N; [exact I|].
+  destruct (negb (existsb (subscribes s) (g_members g2))); [exact H|]. split; cbn [g_members g_epoch]; [apply Permutation_map; exact Hm|reflexivity].
 Qed.
 
 Lemma alookup_eqv g l1 l2 : Forall2 geq l1 l2 ->
   match alookup g l1, alookup g l2 with
-  | Some a, Some b => gr_coord a = gr_coord b /\ gp (gr_g a) = gp (gr_g b)
+  | Some a, Some b => gr_coord a = gr_coord b /\ gpe (gr_g a) (gr_g b)
   | None, None => True
   | _, _ => False
   end.
@@ -825,7 +852,7 @@ Proof.
   destruct (N.eqb k1 g); [exact IH|constructor; assumption].
 Qed.
 
-Lemma aset_eqv g a b l1 l2 : Forall2 geq l1 l2 -> gr_coord a = gr_coord b -> gp (gr_g a) = gp (gr_g b) ->
+Lemma aset_eqv g a b l1 l2 : Forall2 geq l1 l2 -> gr_coord a = gr_coord b -> gpe (gr_g a) (gr_g b) ->
   Forall2 geq (aset g a l1) (aset g b l2).
 Proof. intros H Hc Hg. unfold aset. constructor; [split; [reflexivity|split; assumption]|apply aremove_eqv; exact H]. Qed.
 
@@ -853,9 +880,9 @@ Proof.
     unfold stream_exists, part_of; rewrite <- ?Hs; try reflexivity.
   - pose proof (alookup_eqv g _ _ Hg) as H. destruct (alookup g (c_groups c1)), (alookup g (c_groups c2)); try contradiction; reflexivity.
   - pose proof (alookup_eqv g _ _ Hg) as H. destruct (alookup g (c_groups c1)), (alookup g (c_groups c2)); try contradiction; [|reflexivity].
-    destruct H as [_ H]. apply gp_eq in H. destruct H as [-> _]. reflexivity.
+    destruct H as [_ [Hm _]]. rewrite (existsb_perm _ _ _ Hm). reflexivity.
   - pose proof (alookup_eqv g _ _ Hg) as H. destruct (alookup g (c_groups c1)), (alookup g (c_groups c2)); try contradiction; [|reflexivity].
-    destruct H as [_ H]. apply gp_eq in H. destruct H as [-> _]. reflexivity.
+    destruct H as [_ [Hm _]]. rewrite (existsb_perm _ _ _ Hm). reflexivity.
   - pose proof (alookup_eqv g _ _ Hg) as H. destruct (alookup g (c_groups c1)), (alookup g (c_groups c2)); try contradiction; reflexivity.
 Qed.
 
@@ -879,7 +906,7 @@ Proof.
   - unfold with_part in *. apply (with_stream_eqv c1 c2 s _ c1' He H).
   - unfold with_part in *. apply (with_stream_eqv c1 c2 s _ c1' He H).
   - pose proof (alookup_eqv g _ _ Hg) as Ha. destruct (alookup g (c_groups c1)); [discriminate|]. destruct (alookup g (c_groups c2)); [contradiction|].
-    pose proof (add_member_cong (nparts_of (c_streams c1)) (nparts_of (c_streams c2)) new_group new_group cn ss 0%N eq_refl) as Hc.
+    pose proof (add_member_cong (nparts_of (c_streams c1)) (nparts_of (c_streams c2)) new_group new_group cn ss 0%N (gpe_refl _)) as Hc.
     destruct (add_member (nparts_of (c_streams c1)) new_group cn ss 0%N) as [a| |]; try discriminate. injection H as <-.
     destruct (add_member (nparts_of (c_streams c2)) new_group cn ss 0%N) as [b| |]; try contradiction.
     eexists. split; [reflexivity|]. split; [exact Hs|]. cbn [set_group c_groups]. apply aset_eqv; [exact Hg|reflexivity|exact Hc].
@@ -894,14 +921,16 @@ Proof.
     pose proof (remove_member_cong (nparts_of (c_streams c1)) (nparts_of (c_streams c2)) (gr_g gr1) (gr_g gr2) cn idx Hgp) as Hc.
     destruct (remove_member (nparts_of (c_streams c1)) (gr_g gr1) cn idx) as [a| |]; try discriminate. injection H as <-.
     destruct (remove_member (nparts_of (c_streams c2)) (gr_g gr2) cn idx) as [b| |]; try contradiction.
-    pose proof (gp_eq _ _ Hc) as [Hm _]. rewrite <- Hm.
-    eexists. split; [reflexivity|]. destruct (g_members a).
+    pose proof Hc as [Hm _].
+    eexists. split; [reflexivity|]. destruct (g_members a) eqn:Ea, (g_members b) eqn:Eb.
     + split; [exact Hs|]. cbn [c_groups]. apply aremove_eqv. exact Hg.
+    + apply Permutation_nil in Hm. discriminate.
+    + apply Permutation_sym, Permutation_nil in Hm. discriminate.
     + split; [exact Hs|]. cbn [set_group c_groups]. apply aset_eqv; [exact Hg|exact Hco|exact Hc].
   - pose proof (alookup_eqv g _ _ Hg) as Ha. destruct (alookup g (c_groups c1)) as [gr1|]; [|discriminate]. destruct (alookup g (c_groups c2)) as [gr2|]; [|contradiction].
-    destruct Ha as [Hco Hgp]. pose proof (gp_eq _ _ Hgp) as [Hm Hep]. rewrite <- Hep.
+    destruct Ha as [Hco Hgp]. pose proof Hgp as [Hm Hep]. rewrite <- Hep.
     destruct (idx <=? g_epoch (gr_g gr1))%N; injection H as <-; (eexists; split; [reflexivity|]); [exact He|].
-    split; [exact Hs|]. cbn [set_group c_groups]. apply aset_eqv; [exact Hg|reflexivity|]. unfold gp. cbn [gr_g g_members g_epoch]. rewrite Hm. reflexivity.
+    split; [exact Hs|]. cbn [set_group c_groups]. apply aset_eqv; [exact Hg|reflexivity|]. split; cbn [gr_g g_members g_epoch]; [exact Hm|reflexivity].
   - injection H as <-. exists c2. split; [reflexivity|exact He].
 Qed.
 
@@ -922,7 +951,7 @@ Proof.
   - destruct (apply_core fixed false idx c2 o) as [d2|] eqn:E2; [|reflexivity].
     assert (He' : core_eqv c2 c1).
     { destruct He as [Hs Hg]. split; [symmetry; exact Hs|]. clear -Hg. induction Hg as [|a b r1 r2 (H1 & H2 & H3) _ IH']; constructor; [|exact IH'].
-      split; [symmetry; exact H1|split; symmetry; assumption]. }
+      split; [symmetry; exact H1|split; [symmetry; exact H2|apply gpe_sym; exact H3]]. }
     destruct (apply_eqv false idx c2 c1 o d2 He' E2) as (d1 & E1 & _). congruence.
 Qed.
 
@@ -955,21 +984,38 @@ Proof.
   rewrite normal_id by (apply Hs; left; reflexivity). destruct m. reflexivity.
 Qed.
 
+(* what a snapshot of a live state may look like: the members of a group come in any order *)
+Definition sgeq (a b : gid * snap_group) : Prop :=
+  fst a = fst b /\ sg_coord (snd a) = sg_coord (snd b) /\ sg_epoch (snd a) = sg_epoch (snd b) /\
+  Permutation (sg_members (snd a)) (sg_members (snd b)).
+Definition snap_of (sn : snapshot) (L : core) : Prop :=
+  sn_streams sn = sn_streams (take_snapshot L) /\ Forall2 sgeq (sn_groups sn) (sn_groups (take_snapshot L)).
+
+Lemma snap_of_self L : snap_of (take_snapshot L) L.
+Proof.
+  split; [reflexivity|]. generalize (sn_groups (take_snapshot L)). intros l. induction l as [|x r IH]; constructor; [|exact IH].
+  split; [reflexivity|split; [reflexivity|split; [reflexivity|apply Permutation_refl]]].
+Qed.
+
 (* Restoring a snapshot of a live state gives back its streams and partitions exactly, and its
    groups with the same coordinator, members and epoch (the assignments are recomputed). *)
-Lemma restore_eqv L : NoTomb L -> PInv L -> MInv L -> core_eqv (restore_core fixed (take_snapshot L)) L.
+Lemma restore_eqv sn L : snap_of sn L -> NoTomb L -> PInv L -> MInv L -> core_eqv (restore_core fixed sn) L.
 Proof.
-  intros Hn Hp Hm. unfold restore_core, take_snapshot. cbn [sn_streams sn_groups].
+  intros [Hss Hsg] Hn Hp Hm. unfold restore_core. rewrite Hss. unfold take_snapshot in *. cbn [sn_streams sn_groups] in *.
   rewrite restore_streams_id by (intros k st Hin; split; [apply (Hn k); exact Hin|apply (Hp k); exact Hin]).
-  split; [reflexivity|]. cbn [c_groups]. rewrite map_map.
-  assert (G : forall gs, (forall g gr m, In (g, gr) gs -> In m (g_members (gr_g gr)) -> ssorted (m_streams m)) ->
-              Forall2 geq (map (fun kv => (fst kv, restore_group (nparts_of (c_streams L))
-                                                    (mkSnapGroup (gr_coord (snd kv)) (g_epoch (gr_g (snd kv))) (g_members (gr_g (snd kv)))))) gs) gs).
-  { induction gs as [|[g gr] r IH]; intros H; [constructor|]. cbn [map fst snd]. constructor; [|apply IH; intros g0 gr0 m Hin; apply (H g0); right; exact Hin].
-    split; [reflexivity|]. cbn [snd]. unfold restore_group. cbn [sg_coord sg_epoch sg_members gr_coord gr_g]. split; [reflexivity|].
-    destruct (restore_members (nparts_of (c_streams L)) (g_members (gr_g gr)) new_group eq_refl (fun m Hi => H g gr m (or_introl eq_refl) Hi)) as [H1 _].
-    unfold gp. cbn [g_members g_epoch]. rewrite H1. reflexivity. }
-  apply G. exact Hm.
+  split; [reflexivity|]. cbn [c_groups].
+  assert (G : forall gs l1, (forall g gr m, In (g, gr) gs -> In m (g_members (gr_g gr)) -> ssorted (m_streams m)) ->
+              Forall2 sgeq l1 (map (fun kv : gid * grp => (fst kv, mkSnapGroup (gr_coord (snd kv)) (g_epoch (gr_g (snd kv))) (g_members (gr_g (snd kv))))) gs) ->
+              Forall2 geq (map (fun kv => (fst kv, restore_group (nparts_of (c_streams L)) (snd kv))) l1) gs).
+  { induction gs as [|[g gr] r IH]; intros l1 H HF; cbn [map] in HF; inversion HF as [|[g1 sg] y l1' ? Hhd Htl]; subst; [constructor|].
+    cbn [map fst snd]. constructor; [|apply IH; [intros g0 gr0 m Hin; apply (H g0); right; exact Hin|exact Htl]].
+    destruct Hhd as (Hk & Hc & He & Hperm). cbn [fst snd sg_coord sg_epoch sg_members] in *. subst g1.
+    split; [reflexivity|]. cbn [snd]. unfold restore_group. split; [exact Hc|].
+    assert (Hsorted : forall m, In m (sg_members sg) -> ssorted (m_streams m)).
+    { intros m Hi. apply (H g gr m (or_introl eq_refl)). apply (Permutation_in _ Hperm). exact Hi. }
+    destruct (restore_members (nparts_of (c_streams L)) (sg_members sg) new_group eq_refl Hsorted) as [H1 _].
+    split; cbn [gr_g g_members g_epoch]; [rewrite H1; exact Hperm|exact He]. }
+  apply G; [exact Hm|exact Hsg].
 Qed.
 
 (* ------------------------------------------------------------------ runs in two parts *)
@@ -1017,25 +1063,26 @@ Proof.
   - assert (E : keys (c_groups c1) = keys (c_groups c2)).
     { clear -Hg. unfold keys. induction Hg as [|a b r1 r2 (H1 & _) _ IH]; [reflexivity|]. cbn [map]. f_equal; assumption. }
     unfold WF. rewrite E. exact Hwg.
-  - intros g gr Hin. assert (Hex : exists gr2, In (g, gr2) (c_groups c2) /\ gp (gr_g gr) = gp (gr_g gr2)).
+  - intros g gr Hin. assert (Hex : exists gr2, In (g, gr2) (c_groups c2) /\ gpe (gr_g gr) (gr_g gr2)).
     { clear -Hg Hin. induction Hg as [|[k1 a] [k2 b] r1 r2 (H1 & _ & H3) _ IH]; [destruct Hin|]. cbn [fst snd] in *. subst k2.
       destruct Hin as [[= -> ->]|Hin]; [exists b; split; [left; reflexivity|exact H3]|]. destruct (IH Hin) as (gr2 & H & H'). exists gr2. split; [right; exact H|exact H']. }
-    destruct Hex as (gr2 & Hin2 & Hgp). apply gp_eq in Hgp. destruct Hgp as [Hm He]. destruct (Hi g gr2 Hin2) as [H1 H2].
-    split; [rewrite He; exact H1|]. intros s (m & Hmm & Hss). rewrite Hs. apply H2. exists m. split; [rewrite <- Hm; exact Hmm|exact Hss].
+    destruct Hex as (gr2 & Hin2 & [Hm He]). destruct (Hi g gr2 Hin2) as [H1 H2].
+    split; [rewrite He; exact H1|]. intros s (m & Hmm & Hss). rewrite Hs. apply H2. exists m. split; [apply (Permutation_in _ Hm); exact Hmm|exact Hss].
 Qed.
 
 (* A server rebuilt from the snapshot taken after the first i operations plus a replay of the
    rest, followed by finishedRecovery, has the metadata of the live servers: the same streams,
    partitions, replicas, ISR, leaders, epochs, paused and read-only flags, and the same groups
    with the same coordinator, members and epoch. *)
-Theorem snapshot_restart ops i Li Ln : (i <= length ops)%nat ->
+Theorem snapshot_restart ops i Li Ln sn : (i <= length ops)%nat ->
   valid_run fixed 1 empty_core ops = true ->
   run_core fixed false 1 empty_core (firstn i ops) = Some Li ->
   run_core fixed false 1 empty_core ops = Some Ln ->
-  exists P, run_core fixed true (N.of_nat i + 1) (restore_core fixed (take_snapshot Li)) (skipn i ops) = Some P /\
+  snap_of sn Li ->
+  exists P, run_core fixed true (N.of_nat i + 1) (restore_core fixed sn) (skipn i ops) = Some P /\
             core_eqv (finish_core (N.of_nat (length ops)) P) Ln.
 Proof.
-  intros Hi Hv HLi HLn. rewrite <- (firstn_skipn i ops) in Hv, HLn.
+  intros Hi Hv HLi HLn Hsn. rewrite <- (firstn_skipn i ops) in Hv, HLn.
   assert (Hlen : length (firstn i ops) = i) by (apply firstn_length_le; exact Hi).
   destruct (valid_app _ _ _ _ Hv) as [Hv1 Hv2]. specialize (Hv2 Li HLi). rewrite Hlen in Hv2.
   rewrite run_app, HLi, Hlen in HLn. replace (1 + N.of_nat i)%N with (N.of_nat i + 1)%N in * by lia.
@@ -1049,20 +1096,20 @@ Proof.
   { apply (run_invs false (firstn i ops) 1%N (cstrip empty_core) Li); [intros k st []|intros g gr m []|exact HLi]. }
   destruct HPM as [HpLi HmLi].
   (* the restored state agrees with it up to assignments *)
-  pose proof (restore_eqv Li HnLi HpLi HmLi) as He. set (R := restore_core fixed (take_snapshot Li)) in *.
+  pose proof (restore_eqv sn Li Hsn HnLi HpLi HmLi) as He. set (R := restore_core fixed sn) in *.
   assert (HnR : NoTomb R) by (intros k st Hin; destruct He as [Hs _]; rewrite Hs in Hin; apply (HnLi k); exact Hin).
   assert (HRR : RInv (N.of_nat i + 1) R) by (apply (RInv_eqv _ R Li He HRLi)).
   (* live continuation from the restored state *)
   assert (He' : core_eqv Li R).
   { destruct He as [Hs Hg]. split; [symmetry; exact Hs|]. clear -Hg. induction Hg as [|a b r1 r2 (H1 & H2 & H3) _ IH']; constructor; [|exact IH'].
-    split; [symmetry; exact H1|split; symmetry; assumption]. }
+    split; [symmetry; exact H1|split; [symmetry; exact H2|apply gpe_sym; exact H3]]. }
   destruct (run_eqv (skipn i ops) _ Li R Ln He' HLn) as (Ln' & HLn' & Heq).
   rewrite (valid_eqv (skipn i ops) _ Li R He') in Hv2.
   rewrite <- (strip_notomb R HnR) in HLn', Hv2.
   destruct (run_commutes (skipn i ops) _ R Ln' HRR Hv2 HLn') as (P & HP & HsP & HRP).
   exists P. split; [exact HP|]. rewrite (finish_is_strip _ _ P HRP), HsP.
   destruct Heq as [Hs Hg]. split; [symmetry; exact Hs|]. clear -Hg. induction Hg as [|a b r1 r2 (H1 & H2 & H3) _ IH']; constructor; [|exact IH'].
-  split; [symmetry; exact H1|split; symmetry; assumption].
+  split; [symmetry; exact H1|split; [symmetry; exact H2|apply gpe_sym; exact H3]].
 Qed.
 
 (* ------------------------------------------------------------------ the data directories *)
